@@ -957,7 +957,7 @@ def rule_ptr_guarded_call(ctx):
     r.notes.append('call sites outside the list module: %d (all %d known to the call graph covered); membership-guarded operations: %d' % (
         n, len(expected_sites), len(self_guarded)))
     # the floor counts the sites wherever the guard lives: in the callers, or inside membership-guarded list operations
-    if n + sum(1 for _ in self_guarded) < 3:
+    if n + sum(1 for _ in self_guarded) < (3 if ctx.has_sync else 2):
         raise CheckFailure('PTR-guarded-call: only %d call site(s) and %d membership-guarded operation(s) analysed -- the rule would pass vacuously (anchor moved?)' % (n, len(self_guarded)))
     return r
 
